@@ -344,6 +344,8 @@ for _t in TYPES:
         ms += ["sibling_leaf_same_keys", "sibling_leaf_same_keys"]
     if _t in ("p2tr_key", "p2tr_key_root"):
         ms += ["untweaked_key_sig", "wrong_root_sig"]
+    if _t in ("p2pkh", "p2pkh_uncompressed", "p2sh_multisig"):
+        ms += ["witness_smuggled_for_foreign_key"]
     if _t in TAPROOT:
         ms += ["annex_added_after_signing"]
     if _t in ("p2tr_key", "p2tr_key_root", "p2tr_script_p2pk"):
@@ -566,6 +568,17 @@ def check_mutated(case, ctx):
         tin.witness = Witness([ts.raw_serialize(), sp.cb.serialize()])
         sig = tx.get_sig_taproot(idx, sp.foreign, ext_flag=1)
         tin.witness.items.insert(0, sig)
+    elif mut == "witness_smuggled_for_foreign_key":
+        # the output is NOT a witness program, but the scriptSig starts like one (0 <20 bytes>: the stack
+        # pattern of P2WPKH) and the input carries a witness with the attacker's key and his signature over
+        # the digest a CHECKSIG in this input would use
+        att = sp.foreign
+        sig = sp.ecdsa_sig(att)
+        prefix = [0, h160(att.point.sec())] if w % 4 else [0, hashlib.sha256(att.point.sec()).digest()]
+        tail = [sp.redeem.raw_serialize()] if typ == "p2sh_multisig" else []
+        tin.script_sig = Script(prefix + tail)
+        tin.witness = Witness([sig, att.point.sec()])
+        tx.segwit = True
     elif mut == "annex_added_after_signing":
         # BIP341 signatures commit to the presence and content of the annex
         tin.witness.items.append(b"\x50" + d.to_bytes(4, "big")[: w % 5])
@@ -686,7 +699,12 @@ def check_nosig(case, ctx):
             wit = wit + [sp.tap_script.raw_serialize(), sp.cb.serialize()]
         ctx.label("shape:keep_tail")
     if typ not in SEGWIT:
-        wit = []
+        # a witness on an input that spends no witness program (every second case keeps it)
+        if case["which"] % 2 if "which" in case else len(wit) % 2:
+            wit = []
+        elif wit:
+            ctx.label("witness_on_legacy_input")
+            tx.segwit = True
     if ss and typ in SEGWIT and typ not in ("p2sh_p2wpkh", "p2sh_p2wsh_multisig"):
         ctx.label("nonempty_scriptsig_on_native_witness_output")
     if len(wit) == 1 and wit[0][:1] == b"\x50" and typ in TAPROOT:
